@@ -95,3 +95,7 @@ def replay(case):
     if ds and max(ds) - min(ds) > 2e-5 * max(1.0, max(ds)):
         bad.append(f"disorders differ across back-ends: { {b: v.get('disorder') for b, v in r.items()} }")
     return dict(reproduced=bool(bad), detail="; ".join(bad)[:400])
+
+
+# translator validation (shared): the repository's own test inputs through both builds
+tv_cases, tv_real, tv_sym, tv_compare_hook = pipeline.tv_cases, pipeline.tv_real, pipeline.tv_sym, pipeline.tv_compare_hook
